@@ -218,6 +218,18 @@ func (g GRPCAPI) ServeWhoRaw(id uint32, tag string) error {
 	}()
 	return nil
 }
+// ServeWhoRawCloser is ServeWhoRaw for an application that closes its listener when it is done: the
+// returned function stops the server and closes the listener.
+func (g GRPCAPI) ServeWhoRawCloser(id uint32, tag string) (func(), error) {
+	ln, err := g.B.Accept(id)
+	if err != nil {
+		return nil, err
+	}
+	s := grpc.NewServer()
+	s.RegisterService(&whoDesc, &whoImpl{tag: tag})
+	go s.Serve(ln)
+	return func() { s.Stop(); ln.Close() }, nil
+}
 func (g GRPCAPI) DialWho(id uint32) (string, error) {
 	conn, err := g.B.Dial(id)
 	if err != nil {
